@@ -385,6 +385,74 @@ fn wide_and_deep_pool() -> Vec<PV> {
     v
 }
 
+/// The same comparison reached through the constructs that wrap comparisons in practice: under a
+/// negation, as a filter predicate over elements of every kind, and between multi-select values that
+/// share their member nodes. Expected outcomes follow from the plain comparison's own result
+/// (`plain`: Some(bool) / None for null), so these checks are about the wrapping, not the operator.
+fn wrapped_forms(rep: &mut Report, x: &PV, y: &PV, plain: &[Option<bool>; 6]) {
+    let doc = json!({"l": x.to_value(), "r": y.to_value(),
+                     "xs": [{"a": x.to_value(), "id": 0}, 7, "s", [1], true, {"b": x.to_value(), "id": 5}, null, {"a": null, "id": 7}]});
+    let input = rcvar_of(&doc);
+    let lit = format!("`{}`", y.text().replace('`', "\\`"));
+    let y_is_null = matches!(y, PV::Null);
+    for (k, op) in OPS.iter().enumerate() {
+        // (a) negation of the parenthesised comparison: `!` of null is true
+        rep.evaluations += 1;
+        let want_not = !(plain[k] == Some(true));
+        let text = format!("!(l {} r)", op);
+        match guarded(|| jmespath::compile(&text).and_then(|e| e.search(&input))) {
+            Ok(Ok(v)) if v.as_boolean() == Some(want_not) => rep.count("wrapped/negation_ok"),
+            other => rep.violation(
+                "C10/negated-comparison-is-not-the-negation",
+                json!({"l": x.text(), "r": y.text(), "expression": text, "plain_result": format!("{:?}", plain[k]), "expected": want_not, "got": format!("{:?}", other.map(|r| r.map(|v| v.to_string()).map_err(|e| e.to_string())))}),
+            ),
+        }
+        // (b) as a filter predicate `[?a OP literal]` over objects with and without the member, scalars, arrays, null
+        if y.depth() < 100 {
+            rep.evaluations += 1;
+            // member `a` of an element that is not an object (or lacks it) is null: compare null with y
+            let null_vs_y: Option<bool> = match k {
+                0 => Some(y_is_null),
+                1 => Some(!y_is_null),
+                _ => None,
+            };
+            let mut want: Vec<Value> = vec![];
+            if plain[k] == Some(true) {
+                want.push(doc["xs"][0].clone());
+            }
+            if null_vs_y == Some(true) {
+                for i in [1usize, 2, 3, 4, 5, 7] {
+                    want.push(doc["xs"][i].clone());
+                }
+            }
+            let text = format!("xs[?a {} {}]", op, lit);
+            match guarded(|| jmespath::compile(&text).and_then(|e| e.search(&input))) {
+                Ok(Ok(v)) if value_of(&v).map_or(false, |g| refimpl::json::val_eq(&g, &Value::Array(want.clone()), 0.0)) => rep.count("wrapped/filter_ok"),
+                other => rep.violation(
+                    "C10/comparison-as-filter-predicate-differs",
+                    json!({"l": x.text(), "r": y.text(), "expression": text, "plain_result": format!("{:?}", plain[k]), "expected_kept": want.len(),
+                           "got": format!("{:?}", other.map(|r| r.map(|v| v.to_string().chars().take(300).collect::<String>()).map_err(|e| e.to_string())))}),
+                ),
+            }
+        }
+    }
+    // (c) multi-select values whose members are the SAME nodes under different / equal names
+    for (text, want) in [("{p: l} == {q: l}", false), ("{p: l} == {p: l}", true), ("{p: l} != {q: l}", true), ("[l] == [l]", true), ("[l, l] == [l]", false), ("{p: l, q: r} == {p: l, q: r}", true),
+                         ("{p: l, q: r} == {p: r, q: l}", plain[0] == Some(true))] {
+        if matches!(x, PV::Null) || matches!(y, PV::Null) {
+            // (a multi-select hash keeps null members, nothing special; still fine to check)
+        }
+        rep.evaluations += 1;
+        match guarded(|| jmespath::compile(text).and_then(|e| e.search(&input))) {
+            Ok(Ok(v)) if v.as_boolean() == Some(want) => rep.count("wrapped/shared_members_ok"),
+            other => rep.violation(
+                "C10/equality-of-values-sharing-member-nodes",
+                json!({"l": x.text(), "r": y.text(), "expression": text, "expected": want, "got": format!("{:?}", other.map(|r| r.map(|v| v.to_string()).map_err(|e| e.to_string())))}),
+            ),
+        }
+    }
+}
+
 pub fn run(args: &Args) {
     let mut rep = Report::new("C10");
     let mut rng = Rng::new(args.seed);
@@ -420,6 +488,9 @@ pub fn run(args: &Args) {
                     _ => continue,
                 };
                 check_pair(&mut rep, x, y, &xy, &yx, literal);
+                if form == 0 && (i + 3 * j) % 4 == 0 {
+                    wrapped_forms(&mut rep, x, y, &xy);
+                }
             }
         }
     }
